@@ -1,2 +1,282 @@
+//! C10 — every deterministic BBS operation matches the drafts for all inputs (byte-for-byte against refbbs over
+//! exhaustive shape grids), decisions equal the reference's decisions, KeyGen refusal rules, and history independence:
+//! ALL call sequences of length <= 3 over a 14-call alphabet must give, at every step, the value the same call gives
+//! from the initial state (fresh process). Threads: 16-way concurrent battery (sampled schedules, labelled so) plus a
+//! census of synchronisation primitives in the source.
+#![allow(non_snake_case)]
 use crate::common::*;
-pub fn run(_env: &Env) {}
+use mccore::{fill, par_for, tuples, O};
+use refbbs::Suite;
+use serde_json::json;
+
+fn cmp_bytes<T: AsRef<[u8]>>(env: &Env, root: &str, what: &str, cls: &str, got: &O<T>, want: &Result<Vec<u8>, String>, det: serde_json::Value) {
+    env.ctx.step();
+    match (got, want) {
+        (O::Ok(g), Ok(w)) if g.as_ref() == &w[..] => env.ctx.class(&format!("{}:equal", cls)),
+        (O::Err(_), Err(_)) => env.ctx.class(&format!("{}:both-refuse", cls)),
+        (O::Panic(p), _) => env.ctx.violation(&format!("C10:{}:panic", cls), &format!("{}: panic {}", what, p), env.case(root, det)),
+        (O::Ok(g), Ok(w)) => env.ctx.violation(&format!("C10:{}:bytes-differ", cls), &format!("{}: implementation {} != reference {}", what, mccore::hexs(g.as_ref()), mccore::hexs(w)), env.case(root, det)),
+        (O::Ok(_), Err(e)) => env.ctx.violation(&format!("C10:{}:accepts-where-reference-refuses", cls), &format!("{}: implementation Ok, reference refuses ({})", what, e), env.case(root, det)),
+        (O::Err(e), Ok(_)) => env.ctx.violation(&format!("C10:{}:refuses-where-reference-accepts", cls), &format!("{}: implementation refuses ({}), reference Ok", what, e), env.case(root, det)),
+    }
+    env.ctx.trace();
+}
+
+pub fn api_ids(s: Suite, seed: u64) -> Vec<(String, Option<Vec<u8>>)> {
+    vec![
+        ("none".into(), None), ("empty".into(), Some(vec![])), ("API_ID".into(), Some(s.api_id())), ("API_ID_BLIND".into(), Some(s.api_id_blind())),
+        ("BLIND_+API_ID_BLIND".into(), Some(refbbs::cat(&[b"BLIND_", &s.api_id_blind()]))), ("1B".into(), Some(vec![0x41])), ("200B".into(), Some(fill(seed, "api200", 200))),
+    ]
+}
+
+// ------------------------------------------------------------------------------------------------------------------
+// the 14-call alphabet for history independence. Each call returns a digest of its observable result: the bytes for
+// deterministic operations, the verdict for randomised ones.
+pub const NCALLS: usize = 14;
+pub const CALL_NAMES: [&str; NCALLS] = ["generators(5,API_ID)/sha", "generators(5,API_ID_BLIND)/sha", "generators(8,API_ID)/sha", "generators(3,API_ID)/shake", "sign/sha", "sign/shake", "verify/sha", "verify/shake", "proof_gen+proof_verify/sha", "proof_gen+proof_verify/shake", "commit+validate/sha", "blind_sign(no commitment)/sha", "keygen/sha", "messages_to_scalars/shake"];
+
+pub fn call(i: usize) -> String {
+    let (sha, shake) = (Suite::Sha256, Suite::Shake256);
+    let hd = |o: O<Vec<u8>>| match o { O::Ok(b) => hex::encode(b), O::Err(e) => format!("Err({})", e), O::Panic(p) => format!("PANIC({})", p) };
+    let gens = |s: Suite, n: usize, api: Vec<u8>| hd(z(s).generators(n, Some(&api)).map(|g| g.concat()));
+    let msgs = vec![b"a".to_vec(), b"bb".to_vec()];
+    let k = |s| key(s, "k0");
+    match i {
+        0 => gens(sha, 5, sha.api_id()), 1 => gens(sha, 5, sha.api_id_blind()), 2 => gens(sha, 8, sha.api_id()), 3 => gens(shake, 3, shake.api_id()),
+        4 | 5 => { let s = if i == 4 { sha } else { shake }; hd(z(s).sign(&k(s).sk, &k(s).pk, Some(b"h"), Some(&msgs))) }
+        6 | 7 => { let s = if i == 6 { sha } else { shake }; let sk = refbbs::octets_to_scalar_strict(&k(s).sk).unwrap(); let sig = refbbs::sign(s, &sk, &k(s).pk.clone().try_into().unwrap(), b"h", &msgs).unwrap(); format!("{:?}", z(s).verify(&k(s).pk, &sig, Some(b"h"), Some(&msgs)).kind()) }
+        8 | 9 => { let s = if i == 8 { sha } else { shake }; let sk = refbbs::octets_to_scalar_strict(&k(s).sk).unwrap(); let sig = refbbs::sign(s, &sk, &k(s).pk.clone().try_into().unwrap(), b"h", &msgs).unwrap();
+            match z(s).proof_gen(&k(s).pk, &sig, Some(b"h"), Some(b"p"), Some(&msgs), Some(&[1])) { O::Ok(p) => format!("len={} verify={}", p.len(), z(s).proof_verify(&k(s).pk, &p, Some(b"h"), Some(b"p"), Some(&msgs[1..]), Some(&[1])).kind()), o => o.describe() } }
+        10 => match z(sha).commit(Some(&msgs)) { O::Ok((c, _)) => format!("len={} validate={}", c.len(), z(sha).deserialize_and_validate_commit(Some(&c), 3).kind()), o => o.describe() },
+        11 => hd(z(sha).blind_sign(&k(sha).sk, &k(sha).pk, None, Some(b"h"), Some(&msgs))),
+        12 => hd(z(sha).keygen(&[9u8; 40], Some(b"info"), None).map(|(a, b)| [a, b].concat())),
+        _ => hd(z(shake).messages_to_scalars(&msgs, &shake.api_id()).map(|v| v.concat())),
+    }
+}
+
+pub fn child_main(args: &[String], out: &mccore::Out) {
+    let calls: Vec<usize> = args.get(0).map(|x| x.split(',').filter_map(|t| t.parse().ok()).collect()).unwrap_or_default();
+    let res: Vec<String> = calls.iter().map(|&c| call(c)).collect();
+    out.line(&serde_json::to_string(&res).unwrap());
+}
+
+fn census() -> serde_json::Value {
+    // textual census of shared-state / synchronisation constructs in the subject's source (recorded, never a verdict)
+    let pats = ["static mut", "thread_local!", "lazy_static", "OnceCell", "OnceLock", "Once::", "Mutex", "RwLock", "Atomic", "unsafe ", "Condvar", "mpsc", "static ref"];
+    let mut hits = serde_json::Map::new();
+    fn walk(d: &std::path::Path, f: &mut dyn FnMut(&std::path::Path)) { if let Ok(rd) = std::fs::read_dir(d) { for e in rd.flatten() { let p = e.path(); if p.is_dir() { walk(&p, f); } else if p.extension().map(|x| x == "rs").unwrap_or(false) { f(&p); } } } }
+    let mut files = 0;
+    walk(std::path::Path::new("/repo/src"), &mut |p| { files += 1; if let Ok(t) = std::fs::read_to_string(p) { for pat in pats { let n = t.matches(pat).count(); if n > 0 { let e = hits.entry(pat.to_string()).or_insert(json!(0)); *e = json!(e.as_u64().unwrap() + n as u64); } } } });
+    json!({"files": files, "hits": hits})
+}
+
+pub fn run(env: &Env) {
+    let seed = env.ctx.seed;
+    env.ctx.set_rule("byte-for-byte against the independent reference: KeyGen over |ikm| in {0,31,32,33,64,255,256} x key_info in {None,0,1,255,256,65535,65536 B} x key_dst in {None,1,255,256 B} (incl. the three refusal rules) + SkToPk; Generators::create for EVERY count 0..=200 (thorough 0..=1100) x 7 api_ids; hash_to_scalar for EVERY message length 0..=300 x dst length {1,16,254,255,256}; messages_to_scalars over the message letters x api_ids; sign over a shape grid; blind_sign over (L,M) in [0..=2]^2; update_signature against the reference formula; accept/reject decisions on honest and mutated artefacts; history independence: ALL sequences of length <= 3 over a 14-call alphabet (2954 histories) - each step's result must equal the result of that call from the initial state (fresh process); length <= 2 histories additionally each in its own fresh process; 16-thread concurrent battery (SAMPLED schedules). State = one (operation, input shape) or one history prefix; non-trivial = implementation output compared with an independently computed value.");
+    env.ctx.assume("empty domain-separation tags are outside RFC 9380's domain (tags MUST have non-zero length) and are not judged");
+    env.ctx.extra("sync_census", census());
+    env.ctx.extra("schedule_claim", json!("zkryptium contains no synchronisation operation (see sync_census), so interleavings differ only in thread identity; all call orders up to length 3 are enumerated; the 16-thread run samples schedules"));
+    #[derive(Clone)]
+    enum Job { Keygen(Suite), Gens(Suite, usize), H2s(Suite), Maps(Suite), Sign(Suite), Blind(Suite), Update(Suite), Decisions(Suite), History(usize), HistoryFresh, Threads }
+    let mut jobs: Vec<(String, Job)> = Vec::new();
+    for s in suites() {
+        jobs.push((format!("{}/keygen", s.name()), Job::Keygen(s)));
+        for a in 0..7 { jobs.push((format!("{}/generators/api{}", s.name(), a), Job::Gens(s, a))); }
+        jobs.push((format!("{}/hash_to_scalar", s.name()), Job::H2s(s)));
+        jobs.push((format!("{}/messages_to_scalars", s.name()), Job::Maps(s)));
+        jobs.push((format!("{}/sign", s.name()), Job::Sign(s)));
+        jobs.push((format!("{}/blind_sign", s.name()), Job::Blind(s)));
+        jobs.push((format!("{}/update_signature", s.name()), Job::Update(s)));
+        jobs.push((format!("{}/decisions", s.name()), Job::Decisions(s)));
+    }
+    for first in 0..NCALLS { jobs.push((format!("history/first-call-{}", first), Job::History(first))); }
+    jobs.push(("history/fresh-process".into(), Job::HistoryFresh));
+    jobs.push(("threads16".into(), Job::Threads));
+    // baseline: every call from the initial state, each in its own fresh process
+    let exe = std::env::current_exe().unwrap();
+    let fresh = |calls: &[usize]| -> Option<Vec<String>> {
+        let arg = calls.iter().map(|c| c.to_string()).collect::<Vec<_>>().join(",");
+        let o = std::process::Command::new(&exe).args(["c10-child", &arg]).output().ok()?;
+        serde_json::from_slice(&o.stdout).ok()
+    };
+    let baseline: Vec<String> = (0..NCALLS).map(|c| fresh(&[c]).map(|v| v[0].clone()).unwrap_or_else(|| "child failed".into())).collect();
+    if baseline.iter().any(|b| b == "child failed") { env.machinery("C10 baseline child process failed"); return; }
+    let nmax = if env.thorough() { 1100 } else { 200 };
+    par_for(&jobs, |_, (id, job)| {
+        if !env.want(id) || env.ctx.out_of_time() { return; }
+        match job.clone() {
+            Job::Keygen(s) => {
+                let zk = z(s);
+                let ikms = [0usize, 31, 32, 33, 64, 255, 256];
+                let infos: Vec<Option<usize>> = vec![None, Some(0), Some(1), Some(255), Some(256), Some(65535), Some(65536)];
+                let dsts: Vec<Option<usize>> = vec![None, Some(1), Some(255), Some(256), Some(0)];
+                for &il in &ikms { for inf in &infos { for d in &dsts {
+                    let ikm = fill(seed, "ikm", il); let info = inf.map(|n| fill(seed, "info", n)); let dst = d.map(|n| fill(seed, "dst", n));
+                    env.ctx.state(&[id.as_bytes(), format!("{}/{:?}/{:?}", il, inf, d).as_bytes()]);
+                    let got = zk.keygen(&ikm, info.as_deref(), dst.as_deref());
+                    let det = json!({"suite": s.name(), "ikm_len": il, "key_info_len": inf, "key_dst_len": d});
+                    if *d == Some(0) { env.ctx.step(); if let O::Panic(p) = &got { env.ctx.violation("C10:keygen:empty-dst:panic", p, env.case(id, det)); } env.ctx.class("keygen:empty-dst (crash-only)"); env.ctx.trace(); continue; }
+                    let want = refbbs::keygen(s, &ikm, info.as_deref().unwrap_or(b""), dst.as_deref()).map(|sk| [refbbs::sc_bytes(&sk).to_vec(), refbbs::sk_to_pk(&sk).to_vec()].concat());
+                    // explicit refusal rules of the property
+                    let must_refuse = il < 32 || inf.unwrap_or(0) > 65535 || d.unwrap_or(1) > 255;
+                    if must_refuse != want.is_err() { env.machinery(&format!("reference keygen refusal rule mismatch at {}", det)); }
+                    cmp_bytes(env, id, &format!("KeyGen+SkToPk {}", det), "keygen", &got.map(|(a, b)| [a, b].concat()), &want, det);
+                } } }
+                for k in keys(s) { let got = zk.sk_to_pk(&k.sk); env.ctx.state(&[id.as_bytes(), k.id.as_bytes()]); cmp_bytes(env, id, "SkToPk", "sk_to_pk", &got, &Ok(k.pk.clone()), json!({"key": k.id})); }
+            }
+            Job::Gens(s, a) => {
+                let (an, api) = api_ids(s, seed)[a].clone();
+                let refg: Vec<u8> = refbbs::create_generators(s, nmax, api.as_deref().unwrap_or(b"")).iter().flat_map(|g| refbbs::g1_bytes(g)).collect();
+                let zk = z(s);
+                for n in 0..=nmax {
+                    env.ctx.state(&[id.as_bytes(), &(n as u32).to_be_bytes()]);
+                    let got = zk.generators(n, api.as_deref()).map(|g| g.concat());
+                    cmp_bytes(env, id, &format!("Generators::create({}, api_id={})", n, an), "generators", &got, &Ok(refg[..48 * n].to_vec()), json!({"suite": s.name(), "count": n, "api_id": an}));
+                }
+                if zk.p1().to_vec() != refbbs::g1_bytes(&s.p1()).to_vec() { env.ctx.violation("C10:generators:P1", "P1 differs from the ciphersuite constant", env.case(id, json!({}))); }
+            }
+            Job::H2s(s) => {
+                let zk = z(s);
+                for ml in 0..=300usize { for dl in [1usize, 16, 254, 255, 256] {
+                    let (m, d) = (fill(seed, "h2s-m", ml), fill(seed, "h2s-d", dl));
+                    env.ctx.state(&[id.as_bytes(), format!("{}/{}", ml, dl).as_bytes()]);
+                    cmp_bytes(env, id, &format!("hash_to_scalar(|msg|={}, |dst|={})", ml, dl), "hash_to_scalar", &zk.hash_to_scalar(&m, &d), &refbbs::hash_to_scalar(s, &m, &d).map(|x| refbbs::sc_bytes(&x).to_vec()), json!({"suite": s.name(), "msg_len": ml, "dst_len": dl}));
+                } }
+            }
+            Job::Maps(s) => {
+                let zk = z(s);
+                for (an, api) in api_ids(s, seed) { let api = api.unwrap_or_default(); for (i, m) in msg_letters(seed).iter().enumerate() {
+                    env.ctx.state(&[id.as_bytes(), an.as_bytes(), &[i as u8]]);
+                    let want = refbbs::messages_to_scalars(s, &[m.clone()], &api).map(|v| refbbs::sc_bytes(&v[0]).to_vec());
+                    cmp_bytes(env, id, &format!("map_message_to_scalar_as_hash(letter{}, api_id={})", i, an), "map_message", &zk.map_message(m, &api), &want, json!({"suite": s.name(), "letter": i, "api_id": an}));
+                    cmp_bytes(env, id, &format!("messages_to_scalar([letter{}; 2], api_id={})", i, an), "messages_to_scalars", &zk.messages_to_scalars(&[m.clone(), m.clone()], &api).map(|v| v.concat()), &want.map(|w| [w.clone(), w].concat()), json!({"suite": s.name(), "letter": i, "api_id": an}));
+                } }
+            }
+            Job::Sign(s) => {
+                let zk = z(s);
+                for k in keys(s) { for (hn, h) in hdr_alphabet(seed) { for l in [0usize, 1, 2, 5, 17, 255, 256] {
+                    if l >= 255 && (k.id != "k0" || hn != "16B") { continue; }
+                    let msgs = distinct_msgs(seed, "c10s", l);
+                    env.ctx.state(&[id.as_bytes(), k.id.as_bytes(), hn.as_bytes(), &(l as u32).to_be_bytes()]);
+                    let sk = refbbs::octets_to_scalar_strict(&k.sk).unwrap();
+                    let want = refbbs::sign(s, &sk, &k.pk.clone().try_into().unwrap(), hb(&h), &msgs).map(|x| x.to_vec());
+                    cmp_bytes(env, id, &format!("sign key={} header={} L={}", k.id, hn, l), "sign", &zk.sign(&k.sk, &k.pk, oh(&h), Some(&msgs)), &want, json!({"suite": s.name(), "key": k.id, "header": hn, "L": l}));
+                } } }
+            }
+            Job::Blind(s) => {
+                let zk = z(s);
+                let k = key(s, "k0");
+                let sk = refbbs::octets_to_scalar_strict(&k.sk).unwrap();
+                for l in 0..=2usize { for m in 0..=2usize { for (hn, h) in hdr_small(seed) { for commit in [false, true] {
+                    if !commit && m > 0 { continue; }
+                    let msgs = distinct_msgs(seed, "c10b", l); let cms = distinct_msgs(seed, "c10c", m);
+                    env.ctx.state(&[id.as_bytes(), format!("{}/{}/{}/{}", l, m, hn, commit).as_bytes()]);
+                    // commitment made by the REFERENCE (deterministic scalars): the implementation must accept it and produce the reference's bytes
+                    let rnd: Vec<_> = (0..m + 2).map(|i| refbbs::random_scalar_from(b"c10", id.as_bytes(), i as u64)).collect();
+                    let cwp = if commit { refbbs::commit(s, &cms, &rnd).unwrap().0 } else { vec![] };
+                    let want = refbbs::blind_sign(s, &sk, &k.pk.clone().try_into().unwrap(), &cwp, hb(&h), &msgs).map(|x| x.to_vec());
+                    cmp_bytes(env, id, &format!("blind_sign L={} M={} header={} commit={}", l, m, hn, commit), "blind_sign", &zk.blind_sign(&k.sk, &k.pk, if commit { Some(&cwp) } else { None }, oh(&h), Some(&msgs)), &want, json!({"suite": s.name(), "L": l, "M": m, "header": hn, "commitment": commit}));
+                } } } }
+            }
+            Job::Update(s) => {
+                let zk = z(s);
+                let k = key(s, "k1");
+                let sk = refbbs::octets_to_scalar_strict(&k.sk).unwrap();
+                for l in 1..=4usize { for i in 0..l { for newv in [vec![], vec![0x01], fill(seed, "c10u", 300)] {
+                    let msgs = distinct_msgs(seed, "c10u", l);
+                    let sig = refbbs::sign(s, &sk, &k.pk.clone().try_into().unwrap(), b"hdr", &msgs).unwrap();
+                    env.ctx.state(&[id.as_bytes(), format!("{}/{}/{}", l, i, newv.len()).as_bytes()]);
+                    let want = refbbs::update_signature(s, &sk, &sig, &msgs[i], &newv, i, l).map(|x| x.to_vec());
+                    cmp_bytes(env, id, &format!("update_signature L={} i={} |new|={}", l, i, newv.len()), "update_signature", &zk.update_signature(&k.sk, &sig, &msgs[i], &newv, i, l), &want, json!({"suite": s.name(), "L": l, "i": i, "new_len": newv.len()}));
+                } } }
+            }
+            Job::Decisions(s) => {
+                // a fixed structural subset of the C02/C04/C06 decision comparisons, so that C10 stands alone
+                let zk = z(s);
+                let k = key(s, "k0"); let k1 = key(s, "k1");
+                let msgs = distinct_msgs(seed, "c10d", 3);
+                let sk = refbbs::octets_to_scalar_strict(&k.sk).unwrap();
+                let sig = refbbs::sign(s, &sk, &k.pk.clone().try_into().unwrap(), b"hdr", &msgs).unwrap().to_vec();
+                let mut cases: Vec<(String, Vec<u8>, Vec<u8>, Vec<u8>, Vec<Vec<u8>>)> = vec![("honest".into(), k.pk.clone(), sig.clone(), b"hdr".to_vec(), msgs.clone())];
+                cases.push(("other key".into(), k1.pk.clone(), sig.clone(), b"hdr".to_vec(), msgs.clone()));
+                cases.push(("other header".into(), k.pk.clone(), sig.clone(), b"hdR".to_vec(), msgs.clone()));
+                cases.push(("empty header".into(), k.pk.clone(), sig.clone(), vec![], msgs.clone()));
+                for i in 0..3 { let mut m = msgs.clone(); m.remove(i); cases.push((format!("message {} removed", i), k.pk.clone(), sig.clone(), b"hdr".to_vec(), m)); }
+                for i in 0..2 { let mut m = msgs.clone(); m.swap(i, i + 1); cases.push((format!("messages {} and {} swapped", i, i + 1), k.pk.clone(), sig.clone(), b"hdr".to_vec(), m)); }
+                for bit in (0..640).step_by(7) { cases.push((format!("signature bit {} flipped", bit), k.pk.clone(), flip(&sig, bit), b"hdr".to_vec(), msgs.clone())); }
+                for (name, pk, sg, h, m) in cases {
+                    env.ctx.state(&[id.as_bytes(), name.as_bytes()]);
+                    let got = zk.verify(&pk, &sg, Some(&h), Some(&m)); let want = refbbs::verify(s, &pk, &sg, &h, &m);
+                    env.ctx.step();
+                    if got.is_panic() || got.is_ok() != want.is_ok() { env.ctx.violation("C10:decision:verify", &format!("verify [{}]: implementation {} reference {:?}", name, got.describe(), want), env.case(id, json!({"suite": s.name(), "case": name}))); }
+                    env.ctx.class(&format!("decision:verify:{}", if want.is_ok() { "accept" } else { "reject" })); env.ctx.trace();
+                }
+                // proofs: honest and mutated, for every disclosure set of L = 3
+                for d in mccore::subsets(3) {
+                    let dm: Vec<Vec<u8>> = d.iter().map(|&i| msgs[i].clone()).collect();
+                    let p = match zk.proof_gen(&k.pk, &sig, Some(b"hdr"), Some(b"ph"), Some(&msgs), Some(&d)) { O::Ok(p) => p, o => { env.ctx.violation("C10:decision:proof_gen", &o.describe(), env.case(id, json!({"D": d}))); continue; } };
+                    let mut pc: Vec<(String, Vec<u8>, Vec<u8>, Vec<u8>, Vec<Vec<u8>>, Vec<usize>)> = vec![("honest".into(), p.clone(), b"hdr".to_vec(), b"ph".to_vec(), dm.clone(), d.clone())];
+                    pc.push(("other ph".into(), p.clone(), b"hdr".to_vec(), b"pH".to_vec(), dm.clone(), d.clone()));
+                    pc.push(("other header".into(), p.clone(), b"hdR".to_vec(), b"ph".to_vec(), dm.clone(), d.clone()));
+                    if !d.is_empty() { let mut x = dm.clone(); x[0].push(1); pc.push(("first disclosed message altered".into(), p.clone(), b"hdr".to_vec(), b"ph".to_vec(), x, d.clone())); let mut di = d.clone(); let last = di.len() - 1; di[last] += 1; pc.push(("last index + 1".into(), p.clone(), b"hdr".to_vec(), b"ph".to_vec(), dm.clone(), di)); }
+                    for bit in (0..p.len() * 8).step_by(61) { pc.push((format!("proof bit {} flipped", bit), flip(&p, bit), b"hdr".to_vec(), b"ph".to_vec(), dm.clone(), d.clone())); }
+                    for (name, pp, h, ph, m, di) in pc {
+                        env.ctx.state(&[id.as_bytes(), format!("{:?}", d).as_bytes(), name.as_bytes()]);
+                        let got = zk.proof_verify(&k.pk, &pp, Some(&h), Some(&ph), Some(&m), Some(&di)); let want = refbbs::proof_verify(s, &k.pk, &pp, &h, &ph, &m, &di);
+                        env.ctx.step();
+                        if got.is_panic() || got.is_ok() != want.is_ok() { env.ctx.violation("C10:decision:proof_verify", &format!("proof_verify D={:?} [{}]: implementation {} reference {:?}", d, name, got.describe(), want), env.case(id, json!({"suite": s.name(), "D": d, "case": name}))); }
+                        env.ctx.class(&format!("decision:proof_verify:{}", if want.is_ok() { "accept" } else { "reject" })); env.ctx.trace();
+                    }
+                }
+                // commitments
+                for m in 0..=2usize {
+                    let cms = distinct_msgs(seed, "c10dc", m);
+                    let rnd: Vec<_> = (0..m + 2).map(|i| refbbs::random_scalar_from(b"c10d", &[m as u8], i as u64)).collect();
+                    let cwp = refbbs::commit(s, &cms, &rnd).unwrap().0;
+                    let mut cc: Vec<(String, Vec<u8>)> = vec![("honest (made by the reference)".into(), cwp.clone())];
+                    for bit in (0..cwp.len() * 8).step_by(13) { cc.push((format!("bit {} flipped", bit), flip(&cwp, bit))); }
+                    for (name, c) in cc {
+                        env.ctx.state(&[id.as_bytes(), b"commit", &[m as u8], name.as_bytes()]);
+                        let got = zk.blind_sign(&k.sk, &k.pk, Some(&c), None, Some(&msgs)); let want = refbbs::deserialize_and_validate_commit(s, &c).map(|_| ());
+                        env.ctx.step();
+                        if got.is_panic() || got.is_ok() != want.is_ok() { env.ctx.violation("C10:decision:commitment", &format!("blind_sign on commitment M={} [{}]: implementation {} reference {:?}", m, name, got.describe(), want), env.case(id, json!({"suite": s.name(), "M": m, "case": name}))); }
+                        env.ctx.class(&format!("decision:commitment:{}", if want.is_ok() { "accept" } else { "reject" })); env.ctx.trace();
+                    }
+                }
+            }
+            Job::History(first) => {
+                // all histories of length <= 3 starting with `first`, executed as call sequences in this process
+                for len in 0..=2usize { for rest in tuples(NCALLS, len) {
+                    let hist: Vec<usize> = std::iter::once(first).chain(rest.into_iter()).collect();
+                    for (step, &c) in hist.iter().enumerate() {
+                        let r = call(c);
+                        env.ctx.step();
+                        if step + 1 == hist.len() { env.ctx.state(&[b"history", &hist.iter().map(|&x| x as u8).collect::<Vec<u8>>()]); }
+                        if r != baseline[c] {
+                            env.ctx.violation(&format!("C10:history-dependence:{}", CALL_NAMES[c]), &format!("after history {:?} the call {} returned a value different from the one it returns from the initial state", hist[..step].iter().map(|&x| CALL_NAMES[x]).collect::<Vec<_>>(), CALL_NAMES[c]), env.case(id, json!({"history": hist.iter().map(|&x| CALL_NAMES[x]).collect::<Vec<_>>(), "step": step, "got": r.chars().take(120).collect::<String>(), "from_initial_state": baseline[c].chars().take(120).collect::<String>()})));
+                        }
+                    }
+                    env.ctx.class(&format!("history:len{}", hist.len())); env.ctx.trace();
+                    if hist == vec![first, 1, 2] && first == 0 { env.ctx.sample(json!({"history": hist.iter().map(|&x| CALL_NAMES[x]).collect::<Vec<_>>()})); }
+                } }
+            }
+            Job::HistoryFresh => {
+                // every history of length 2, each in its own fresh process (the initial state is really initial)
+                for h in tuples(NCALLS, 2) {
+                    env.ctx.state(&[b"history-fresh", &h.iter().map(|&x| x as u8).collect::<Vec<u8>>()]);
+                    env.ctx.steps(2);
+                    match fresh(&h) {
+                        Some(res) => for (st, (&c, r)) in h.iter().zip(res.iter()).enumerate() { if *r != baseline[c] { env.ctx.violation(&format!("C10:history-dependence:{}", CALL_NAMES[c]), &format!("fresh process, history {:?}: step {} differs from the initial-state value", h.iter().map(|&x| CALL_NAMES[x]).collect::<Vec<_>>(), st), env.case(id, json!({"history": h}))); } },
+                        None => env.machinery("c10 child failed"),
+                    }
+                    env.ctx.class("history:fresh-process:len2"); env.ctx.trace();
+                }
+            }
+            Job::Threads => {
+                let bar = std::sync::Barrier::new(16);
+                std::thread::scope(|sc| { for t in 0..16usize { let bar = &bar; let baseline = &baseline; sc.spawn(move || { for round in 0..3 { bar.wait(); for j in 0..NCALLS { let c = (j * 5 + t + round) % NCALLS; let r = call(c); env.ctx.step(); if r != baseline[c] { env.ctx.violation(&format!("C10:concurrent-divergence:{}", CALL_NAMES[c]), &format!("thread {} round {}: {} differs from its initial-state value", t, round, CALL_NAMES[c]), env.case("threads16", json!({"thread": t, "round": round}))); } } } }); } });
+                env.ctx.state(&[b"threads16"]); env.ctx.class("threads16 (sampled schedules)"); env.ctx.trace();
+            }
+        }
+    });
+}
